@@ -1671,10 +1671,21 @@ class SchemaValidator:
                         f"{self._context(f'{path}.foreach.variables[{str(i)}].name')}: variable already defined: {var['name']}"
                     ]
 
-                initial_type_details = pipeline_utils.type_details_from_scalar(
-                    value=var["initial"],
-                    expected_type=var["type"],
-                )
+                # check for collision with scoped thread variables
+                if self._find_thread_variable(var["name"], pipeline.thread_scope):
+                    return [
+                        f"{self._context(f'{path}.foreach.variables[{str(i)}].name')}: variable already defined within thread scope: {var['name']}"
+                    ]
+
+                try:
+                    initial_type_details = pipeline_utils.type_details_from_scalar(
+                        value=var["initial"],
+                        expected_type=var["type"],
+                    )
+                except Exception as e:
+                    return [
+                        f"{self._context(f'{path}.foreach.variables[{str(i)}].initial')}: {str(e)}"
+                    ]
 
                 if not pipeline_utils.initial_matches_type(
                     initial_type_details, var["type"]
